@@ -64,3 +64,178 @@ def register(E):
         "bounded oracle only (exhaustive small graphs + random graphs against a Warshall closure)",
     ]
     E.add_contract('digraph.DiGraph.sccs', FILTER)
+    register_partition(E)
+
+
+# ======================================================================================================================
+# The enumeration itself: a PARTIAL deductive result about the real iterative Tarjan loop (second contract on sccs).
+# Proved: the function raises nothing (no KeyError / IndexError / StopIteration / AssertionError on any graph), every
+# node of the graph is put into exactly one component (popped from the Tarjan stack exactly once, never twice, and the
+# stack is empty when the enumeration ends) -- i.e. the components PARTITION the node set.  NOT proved: that each
+# component is a strongly connected component (mutual reachability, maximality) -- that stays with the bounded oracle.
+# ======================================================================================================================
+TS = usort('TState')
+MARK = z3.Const('rtn_marker', Node)
+nbr_arr = z3.Function('nset_elements', NSet, z3.ArraySort(z3.IntSort(), Node))
+nbr_len = z3.Function('nset_size', NSet, z3.IntSort())
+
+
+def _gd(st, name):
+    return st.heap[st.ghost[name].rid]
+
+
+def _gput(st, name, key, val):
+    ref = st.ghost[name]
+    h = st.heap[ref.rid]
+    st.heap[ref.rid] = HDict(h.kt, h.vt, z3.Store(h.mem, key, z3.BoolVal(True)), z3.Store(h.vals, key, val))
+
+
+def ts_attr(which, mk):
+    def get(E, st, o):
+        return mk(z3.Select(_gd(st, which).vals, o.z))
+    return get
+
+
+def ts_store(which):
+    def h(E, st, target, v, node):
+        o, attr = target
+        _gput(st, which, o.z, v.z)
+        return E.ok(st)
+    h.__name__ = 'TState.%s := value (ghost map G.%s)' % (which, which)
+    return h
+
+
+def new_state_rule(E, st, node, args, kws, k):
+    """_TarjanState(dfs): a new state object; dfs = low = next(counter), stacked = False"""
+    t = z3.Const(fresh_name('tstate'), TS)
+    al = st.ghost['alloc']
+    h = st.heap[al.rid]
+    st.assume(z3.Not(z3.Select(h.mem, t)))
+    st.heap[al.rid] = HDict(h.kt, h.vt, z3.Store(h.mem, t, z3.BoolVal(True)), h.vals)
+    c = st.ghost['ctr'].z
+    _gput(st, 'low', t, c)
+    _gput(st, 'dfs', t, c)
+    _gput(st, 'stk', t, z3.BoolVal(False))
+    st.ghost['ctr'] = VInt(c + 1)
+    return k(st, VObj('TState', t))
+new_state_rule.__name__ = '_TarjanState(dfs): fresh object, dfs = low = next(dfs), stacked = False (ghost maps)'
+new_state_rule.modifies = ['G.alloc', 'G.low', 'G.dfs', 'G.stk', 'G.ctr']
+
+
+def partition_yield(E, st, x):
+    st.ghost['yn'] = VInt(st.ghost['yn'].z + 1)
+    return E.ok(st)
+
+
+LOW = lambda x: "G.low[state[%s]]" % x
+DFS = lambda x: "G.dfs[state[%s]]" % x
+STK = lambda x: "G.stk[state[%s]]" % x
+NODES = "self._nodes"
+BASE = [
+    # every node is unvisited or has a state, never both
+    "forall(x, GNode, implies(x in unvisited, x in %s and x not in state))" % NODES,
+    "forall(x, GNode, implies(x in state, x in %s and x not in unvisited))" % NODES,
+    "forall(x, GNode, implies(x in %s, x in unvisited or x in state))" % NODES,
+    "forall(x, GNode, implies(x in state, state[x] in G.alloc))",
+    "forall(x, GNode, y, GNode, implies(x in state and y in state and x != y, state[x] != state[y]))",
+    # stacked flag == membership in the Tarjan stack; a node with a state is on the stack or already in a component
+    "forall(x, GNode, implies(x in state, iff(%s, x in stack)))" % STK('x'),
+    "forall(i, Int, j, Int, implies(0 <= i and i < j and j < len(stack), stack[i] != stack[j]))",
+    "forall(i, Int, implies(0 <= i and i < len(stack), stack[i] in state))",
+    "forall(x, GNode, implies(x in state, iff(x in G.done, not %s)))" % STK('x'),
+    "forall(x, GNode, implies(x in G.done, x in state))",
+    # numbering: low <= dfs < counter; the stack and the ancestor path are ordered by dfs number
+    "forall(x, GNode, implies(x in state, %s <= %s and 0 <= %s and %s < G.ctr))" % (LOW('x'), DFS('x'), DFS('x'), DFS('x')),
+    "forall(i, Int, j, Int, implies(0 <= i and i < j and j < len(stack), %s < %s))" % (DFS('stack[i]'), DFS('stack[j]')),
+    "forall(i, Int, implies(0 <= i and i < len(ancestors), ancestors[i] in state and %s))" % STK('ancestors[i]'),
+    "forall(i, Int, j, Int, implies(0 <= i and i < j and j < len(ancestors), %s < %s))" % (DFS('ancestors[i]'), DFS('ancestors[j]')),
+    "implies(len(ancestors) > 0, len(stack) > 0 and ancestors[0] == stack[0])",
+    "implies(len(ancestors) == 0, len(stack) == 0)",
+    # no low-link points below the root of the current tree (so the root closes its component: the stack empties)
+    "implies(len(stack) > 0, forall(x, GNode, implies(x in state and %s >= %s, %s >= %s)))"
+    % (DFS('x'), DFS('stack[0]'), LOW('x'), DFS('stack[0]')),
+    "G.yn >= old(G.yn)", "G.ctr >= 0",
+]
+VIS = [
+    "forall(p, Int, implies(0 <= p and p < len(visits) and visits[p] != marker(), visits[p] in %s))" % NODES,
+    "len(G.mpos) == len(ancestors)",
+    "forall(i, Int, implies(0 <= i and i < len(G.mpos), 0 <= G.mpos[i] and G.mpos[i] < len(visits) and visits[G.mpos[i]] == marker()))",
+    "forall(i, Int, j, Int, implies(0 <= i and i < j and j < len(G.mpos), G.mpos[i] < G.mpos[j]))",
+    "forall(p, Int, implies(0 <= p and p < len(visits) and visits[p] == marker(), exists(i, Int, 0 <= i and i < len(G.mpos) and G.mpos[i] == p)))",
+    "implies(len(G.mpos) > 0, G.mpos[0] == 0)",
+]
+# between trees, or right after a trivial root was skipped with `continue`, the visit list is empty; at the start of a tree
+# it holds exactly the (unvisited) root
+L2 = BASE + VIS + ["implies(len(ancestors) == 0, len(visits) == 0 or (len(visits) == 1 and visits[0] in unvisited))"]
+L1 = BASE + ["len(ancestors) == 0", "len(stack) == 0", "len(visits) == 0", "len(G.mpos) == 0"]
+L3 = [b for b in BASE if 'ancestors[0] == stack[0]' not in b and 'len(ancestors) == 0, len(stack) == 0' not in b] + VIS + [
+    "exists(i, Int, 0 <= i and i < len(stack) and stack[i] == node)",          # the root of the component is still on the stack
+    "node in state",
+    "forall(i, Int, implies(0 <= i and i < len(stack), stack[i] == pre(stack, '#loop3')[i]))", "len(stack) <= pre(len(stack), '#loop3')",
+    "forall(i, Int, implies(0 <= i and i < len(ancestors), %s < %s))" % (DFS('ancestors[i]'), DFS('node')),
+    "implies(len(ancestors) > 0, ancestors[0] == pre(stack, '#loop3')[0] and ancestors[0] != node)",
+    "implies(len(ancestors) == 0, node == pre(stack, '#loop3')[0])",
+    "len(visits) > 0 or len(ancestors) == 0",
+    "implies(len(ancestors) == 0, len(visits) == 0)",
+]
+GHOSTS_MOD = ['G.low', 'G.dfs', 'G.stk', 'G.alloc', 'G.ctr', 'G.done', 'G.mpos', 'G.yn']
+
+PARTITION = {
+    'merge': True,
+    'property': ['C20'],
+    'generator': True,
+    'params': {'trivial': 'bool'},
+    'self_fields': {'_neighbors': 'Dict[GNode,NSet]', '_nodes': 'Set[GNode]', '_untransform_node': 'Untr'},
+    'returns': 'List[Any]',
+    'yield_handler': partition_yield,
+    'ghost': {'done': 'Set[GNode]', 'alloc': 'Set[TState]', 'ctr': 'int', 'low': 'Dict[TState,int]', 'dfs': 'Dict[TState,int]',
+              'stk': 'Dict[TState,bool]', 'mpos': 'List[int]', 'yn': 'int'},
+    'locals': {'state': 'Dict[GNode,TState]', 'ancestors': 'List[GNode]', 'stack': 'List[GNode]', 'visits': 'List[GNode]',
+               'scc': 'List[GNode]', 'nstate': 'Opt[TState]'},
+    'requires': [
+        "marker() not in self._nodes",                       # the return marker is a fresh object(), not a node
+        # class invariant of DiGraph (add_neighbors intersects with the known nodes): neighbours are nodes of the graph
+        "forall(x, GNode, i, Int, implies(x in self._neighbors and 0 <= i and i < nset_len(self._neighbors[x]),"
+        " nset_item(self._neighbors[x], i) in self._nodes))",
+        "forall(x, GNode, x not in G.done)", "len(G.mpos) == 0", "G.ctr >= 0",
+    ],
+    'modifies': GHOSTS_MOD,
+    'ghost_code': {
+        'scc.append(n)': ['G.done.add(n)'],
+        'node = ancestors.pop()': ['G.mpos.pop()'],
+        'visits[-1] = rtn_marker': ['G.mpos.append(len(visits) - 1)'],
+    },
+    'ensures': [
+        # the components partition the node set: every node was put into exactly one component
+        "forall(x, GNode, iff(x in G.done, x in self._nodes))",
+    ],
+    'raises': {},          # nothing: no KeyError, IndexError, StopIteration or AssertionError on any graph
+    'callsites': {
+        'scc.append': ["n not in G.done",                   # ... and never into a second one
+                       "n in self._nodes"],
+    },
+    'loops': {
+        '#loop1': {'modifies': GHOSTS_MOD, 'inv': L1},
+        '#loop2': {'modifies': GHOSTS_MOD, 'inv': L2},
+        '#loop3': {'modifies': GHOSTS_MOD, 'inv': L3},
+    },
+    'rules': {'count': 'fresh:Any', 'object': lambda E, st, node, args, kws, k: k(st, VObj('GNode', MARK)),
+              '_TarjanState': new_state_rule,
+              'store:TState.low': ts_store('low'), 'store:TState.stacked': ts_store('stk')},
+}
+
+
+def register_partition(E):
+    E.objattrs[('TState', 'low')] = ts_attr('low', VInt)
+    E.objattrs[('TState', 'dfs')] = ts_attr('dfs', VInt)
+    E.objattrs[('TState', 'stacked')] = ts_attr('stk', VBool)
+    E.iter_sorts['NSet'] = lambda eng, st, o: st.alloc(HList(('obj', 'GNode'), nbr_arr(o.z), nbr_len(o.z)))
+    s0 = z3.Const('s0', NSet)
+    i0 = z3.Int('i0')
+    E.axioms += [z3.ForAll([s0], nbr_len(s0) >= 0),
+                 z3.ForAll([s0, i0], z3.Implies(z3.And(0 <= i0, i0 < nbr_len(s0)), nmem(s0, z3.Select(nbr_arr(s0), i0))))]
+    E.specfuncs.update({'marker': lambda eng, st: VObj('GNode', MARK),
+                        'nset_len': lambda eng, st, s_: VInt(nbr_len(s_.z)),
+                        'nset_item': lambda eng, st, s_, i: VObj('GNode', z3.Select(nbr_arr(s_.z), i.z))})
+    E.truthy_sorts['TState'] = 'always'
+    E.add_contract('digraph.DiGraph.sccs@partition', PARTITION)
